@@ -6,6 +6,11 @@
    xmlcheck s|k <codec|-> <tree>       -> ok | bad   (Lean reader on the MODEL output = skeleton)
    parse s|k <hex utf-8> <tree>        -> ok | bad:<why>  (Lean reader on the IMPLEMENTATION output = skeleton)
 
+   textpn 0|1 <tree>                   -> the same for a TextConverter constructed with showpageno = 0|1
+   spectextpn 0|1 <tree>               -> hex(UTF-8) of `specTextPn`
+   textraw 0|1 <tree>                  -> hex(UTF-8) of the right-hand side of `C11_text_raw` | boxes (tree has a text box)
+   fmt.pts (<+|-> <p/q> <+|-> <p/q>)*  -> the regenerated `LTCurve.get_pts`
+
    fmt.f3 <+|-> <p/q>   fmt.d <+|-> <p/q>   fmt.bbox (<+|-> <p/q>)x4   -> the formatted number(s)
 
    strings are code points in hex joined by ',' ("-" = empty); <tree> is a word sequence, see
@@ -144,6 +149,32 @@ def step (line : String) : String :=
     match srat s0 q0, srat s1 q1, srat s2 q2, srat s3 q3 with
     | some a, some b, some c, some d => String.ofList (PdfVerif.Gen.ConvertFmt.bbox2str a b c d)
     | _, _, _, _ => "bad-op"
+  | "fmt.pts" :: ws =>
+    let rec go : List String → Option (List (SRat × SRat))
+      | [] => some []
+      | s0 :: q0 :: s1 :: q1 :: rest =>
+        match srat s0 q0, srat s1 q1, go rest with
+        | some a, some b, some r => some ((a, b) :: r)
+        | _, _, _ => none
+      | _ => none
+    match go ws with
+    | some pts => let r := PdfVerif.Gen.ConvertFmt.get_pts pts; if r.isEmpty then "-" else String.ofList r
+    | none => "bad-op"
+  | "textpn" :: pn :: tree =>
+    match parsePages tree with
+    | some ps => hexOfStr (sinkText (textDocWritesPn (pn == "1") ps))
+    | none => "bad-op"
+  | "spectextpn" :: pn :: tree =>
+    match parsePages tree with
+    | some ps => hexOfStr (specTextPn (pn == "1") ps)
+    | none => "bad-op"
+  | "textraw" :: pn :: tree =>
+    match parsePages tree with
+    | some ps =>
+      if ps.all (fun p => noBoxL p.kids) then
+        hexOfStr (ps.flatMap (fun p => specPageHeader (pn == "1") p ++ glyphTextL p.kids ++ ['\x0c']))
+      else "boxes"
+    | none => "bad-op"
   | "text" :: tree =>
     match parsePages tree with
     | some ps => hexOfStr (sinkText (textDocWrites ps))
